@@ -152,9 +152,33 @@ func VerifC14Layout() {
 	case 1:
 		c14check(want, ansi.DumbWrap(text, verifrt.Int("w", 1, maxW)), "hardwrapped", false)
 	case 2:
-		c14check(want, ansi.Pad(text, verifrt.Int("w", 0, maxW)), "padded", false)
+		out := ansi.Pad(text, verifrt.Int("w", 0, maxW))
+		c14check(want, out, "padded", false)
+		// the filler was never wrapped in a style function: it carries none
+		in, o := verifrt.Parse(text), verifrt.Parse(out)
+		if in.OK && o.OK && len(in.Lines) == len(o.Lines) {
+			plain := true
+			for i, l := range o.Lines {
+				for j := len(in.Lines[i]); j < len(l); j++ {
+					plain = plain && len(l[j].Attrs) == 0
+				}
+			}
+			verifrt.Assert(plain, "padding-carries-no-attributes")
+		}
 	case 3:
-		c14check(want, ansi.Indent(text, "  ", verifrt.Choice("first", 2) == 1), "indented", false)
+		first := verifrt.Choice("first", 2) == 1
+		out := ansi.Indent(text, "  ", first)
+		c14check(want, out, "indented", false)
+		in, o := verifrt.Parse(text), verifrt.Parse(out)
+		if in.OK && o.OK && len(in.Lines) == len(o.Lines) {
+			plain := true
+			for i, l := range o.Lines {
+				for j := 0; j < len(l)-len(in.Lines[i]); j++ {
+					plain = plain && len(l[j].Attrs) == 0
+				}
+			}
+			verifrt.Assert(plain, "indentation-carries-no-attributes")
+		}
 	case 4:
 		w := verifrt.Int("w", 2, maxW)
 		c14check(want, ansi.Snip(ansi.Wrap(text, w), w, verifrt.Int("h", 1, 3), Color("…")), "snipped", true)
